@@ -248,6 +248,15 @@ fn check_roundtrip(rep: &Report, local: &mut Local, c: &FullCfg) {
         }
         // a document parsed directly as a verified configuration must not get round verification (whether
         // such a document parses at all is not demanded)
+        let via_value = text.parse::<toml::Value>().ok().and_then(|v| v.try_into::<flacenc::error::Verified<config::Encoder>>().ok());
+        if via_value.is_some() && !v1 {
+            return Err(("parsed_as_verified_without_verification".into(), format!("a document whose configuration verification rejects ({}) becomes a Verified<Encoder> through toml::Value::try_into", out_of_range(c, cfg!(feature = "experimental")).join(", "))));
+        }
+        if let Some(d) = &via_value {
+            if render(d) != render(&value) {
+                return Err(("roundtrip_differs|parsed_as_verified".into(), "the document parsed as Verified<Encoder> holds a different configuration".into()));
+            }
+        }
         if let (Ok(_), false) = (toml::from_str::<flacenc::error::Verified<config::Encoder>>(&text), v1) {
             return Err(("parsed_as_verified_without_verification".into(), format!("a document whose configuration verification rejects ({}) parses as Verified<Encoder>", out_of_range(c, cfg!(feature = "experimental")).join(", "))));
         }
